@@ -86,6 +86,15 @@ class C19(Prop):
                         cases.append({"reader": "load_multi", "m": m, "n": n, "k": k, "mode": mode, "fault": None})
                 for f in range(n):
                     cases.append({"reader": "load_multi", "m": m, "n": n, "k": m * n + 1, "mode": "exhaust", "fault": f})
+        # load_files over an explicit list of files with different numbers of tables, one of them faulty in one block:
+        # the files are read one at a time in the loader's own order (the work queue is popped from its end)
+        for counts, (ff, fb) in [([1, 3, 2], (1, 1)), ([2, 1], (0, 0)), ([1, 2, 2], (2, 1)), ([3, 1], (1, 0)), ([2, 2, 1], (None, None))]:
+            total = sum(counts)
+            ks = range(0, total + 2) if ff is None else [total + 1]
+            for k in ks:
+                for mode in (("exhaust", "close", "drop") if ff is None else ("exhaust",)):
+                    cases.append({"reader": "load_roots", "counts": counts, "n": 0, "k": k, "mode": mode,
+                                  "fault": None if ff is None else fb, "fault_file": ff})
         for rd in readers:
             for n in (1, 2, 3, 5) if tier == "quick" else (1, 2, 3, 4, 5, 7):
                 for k in range(0, n + 1):
@@ -120,6 +129,17 @@ class C19(Prop):
             wb.save(path)
             wb.close()
             return path
+        if rd == "load_roots":
+            sub = os.path.join(d, "roots")
+            os.mkdir(sub)
+            paths = []
+            for j, cnt in enumerate(case["counts"]):
+                pj = os.path.join(sub, f"r{j}.csv")
+                with open(pj, "w") as f:
+                    f.write("".join(table_csv(100 * j + i, bad=(case.get("fault_file") == j and fault == i)) for i in range(cnt)))
+                paths.append(pj)
+            case["_paths"] = paths
+            return sub
         if rd == "load_multi":
             # every file holds the same blocks (the order in which the folder is listed does not matter)
             sub = os.path.join(d, "many")
@@ -183,6 +203,8 @@ class C19(Prop):
                     gen = read_excel(stream)
                 elif rd == "load_xlsx_badinclude":
                     gen = load_files([path])
+                elif rd == "load_roots":
+                    gen = load_files(case.pop("_paths"), csv_sep=";")
                 elif rd == "load_multi":
                     gen = load_files([path], csv_sep=";")        # the root item is the folder
                 elif rd == "load_root_only":
@@ -311,7 +333,7 @@ class C19(Prop):
             if obs.get("caller_stream_closed"):
                 fails.append("caller-stream: the writer closed the caller's stream")
             return fails
-        owns = case["reader"] in ("csv_path", "xlsx_path", "xlsx_sheets", "load_files", "load_xlsx_badinclude", "load_root_only", "load_multi")
+        owns = case["reader"] in ("csv_path", "xlsx_path", "xlsx_sheets", "load_files", "load_xlsx_badinclude", "load_root_only", "load_multi", "load_roots")
         if obs["before_first_next"] != 0:
             fails.append("early-open: a file is open before the first block is requested")
         for kind, n, how in obs["events"]:
@@ -336,14 +358,22 @@ class C19(Prop):
     def to_coq(self, case, obs):
         if "writer" in case or "harness_exc" in obs:
             return None
-        owns = case["reader"] in ("csv_path", "xlsx_path", "xlsx_sheets", "load_files", "load_xlsx_badinclude", "load_root_only", "load_multi")
+        owns = case["reader"] in ("csv_path", "xlsx_path", "xlsx_sheets", "load_files", "load_xlsx_badinclude", "load_root_only", "load_multi", "load_roots")
         evs = []
         for kind, n, how in obs["events"]:
-            evs.append(g_pair({"next": "GNext", "close": "GClose", "drop": "GDrop"}[kind], g_nat(n)))
+            out = {"yield": "Yielded", "stop": "Stopped"}.get(how, "Raised" if how.startswith("raise") else "Nothing")
+            evs.append(g_pair(g_pair({"next": "GNext", "close": "GClose", "drop": "GDrop"}[kind], g_nat(n)), out))
         r = (f"{{| r_blocks := {g_nat(case['n'])}; r_fault := {g_opt(None if case['fault'] is None else g_nat(case['fault']))}; "
              f"r_owns := {g_bool(owns)} |}}")
         if case["reader"] == "load_multi":
             return f"(KMany {g_list([r] * case['m'])} {g_list(evs)})"
+        if case["reader"] == "load_roots":
+            # reading order: the work queue is popped from its end
+            rs = []
+            for j in reversed(range(len(case["counts"]))):
+                fj = case["fault"] if case.get("fault_file") == j else None
+                rs.append(f"{{| r_blocks := {g_nat(case['counts'][j])}; r_fault := {g_opt(None if fj is None else g_nat(fj))}; r_owns := true |}}")
+            return f"(KMany {g_list(rs)} {g_list(evs)})"
         return f"(KOne {r} {g_list(evs)})"
 
     def nontrivial(self, case, obs):
